@@ -1,0 +1,8 @@
+//go:build !verif
+
+package s2
+
+// verifPoint is a schedule/observation point used by external verification
+// machinery. Without the verif build tag it is an empty function that the
+// compiler inlines away.
+func verifPoint(name string) {}
